@@ -49,3 +49,30 @@ let check_C19 fields =
   check_with false (fun sc log -> oracle_C19 sc log && (not (is_lock fields) || oracle_turns sc log)) fields
 let check_C02 = check_with false (fun _ _ -> true)   (* the oracle is the strict grammar itself: an unparsable output is an oracle failure *)
 let check_C15 = check_with true oracle_turns
+
+(* C03: the variants of one byte stream (ids <n>.v<k>) must produce the identical log *)
+let seg_first : (string, string) Hashtbl.t = Hashtbl.create 1024
+let cur_id = ref ""
+let check_C03 (fields : sexp list) : verdict * string option =
+  let (v, cross) = check_with false (fun _ _ -> true) fields in
+  match v with
+  | OracleFail _ -> (v, cross)
+  | _ ->
+      let r = run_sess fields in
+      let id = !cur_id in
+      let group = (try String.sub id 0 (String.index id '.') with Not_found -> id) in
+      (* Go map iteration order is unspecified: ParameterStatus blocks are compared as sets *)
+      let canon (l : ev list) : string =
+        let rec go acc blk = function
+          | (Out (BParamStatus _) as e) :: r -> go acc (show_ev e :: blk) r
+          | e :: r -> go (show_ev e :: (List.rev (List.sort compare blk)) @ acc) [] r
+          | [] -> List.rev ((List.rev (List.sort compare blk)) @ acc) in
+        String.concat " " (go [] [] l) in
+      let log = (match r.impl with Some l -> canon l | None -> "unparsable") in
+      (match Hashtbl.find_opt seg_first group with
+       | None -> Hashtbl.replace seg_first group log; (v, cross)
+       | Some first ->
+           if first <> log then
+             (OracleFail (Printf.sprintf "the same byte stream delivered in another segmentation gives a different transcript\n    this:  %s\n    first: %s" log first), cross)
+           else (v, cross))
+let check_C18 = check_with false (fun _ _ -> true)
